@@ -11,6 +11,15 @@ CLAIMED = {
  "C05": ("proof", "A1 decision-table extraction over MIR + table composition",
          "Every row of the extracted Message->Frame table (all variants x 13 states x 6 operations) is pushed through the extracted Frame->Message table for every data-length class; the result must be the original message term; wire keys are pairwise distinct.",
          TB + "Claimed modulo C01 for the frame<->bytes leg.", "DESIGN.md 4 C05"),
+ "C12": ("proof", "A4 panic-site inventory over enumerated MIR paths with discharge rules D1-D6",
+         "Every path of VirtualSign::process_message (all handlers and the core functions they reach, inlined) and of the bus loop is enumerated over fully symbolic sign state and message at both logging extremes, plus every hand-written fmt impl reachable through formatting arguments. Each panic-capable construct on a path (Assert terminators, unwrap/expect, range indexing, integer sum, explicit panics, unknown externals) must be discharged by path constraints, interval analysis over type ranges, the Page invariant (C07) or a bounded-sum rule; anything else is a finding.",
+         TB + "Page invariant len(bytes)=total_bytes(w,h)>=16 (C07 + A5) and lemma L3; allocation failure out of scope; derive-generated fmt impls trusted.", "DESIGN.md 4 C12, 3 A4"),
+ "C13": ("proof", "A1 decision-table extraction of the sign dispatcher + comparison with a reference machine",
+         "VirtualSign::process_message with all handlers inlined is summarised per path as (conditions) -> (reply, field writes); the table is compared with the reference sign machine (DESIGN.md Appendix B, sa/p_vsign.py ref_step) on every abstract vector (13 states x message classes x operation x own/foreign x offset/length/family/count/buffer conditions x flip style), at both logging extremes; reassembly writers are checked on the same paths.",
+         TB + "The reference machine is a frozen reading of the property text and the State/Operation docs.", "DESIGN.md 4 C13"),
+ "C14": ("proof", "A1/A2 guard-completeness, write-gating and reply-address rules on the extracted sign table; loop-shape rule on the bus",
+         "Reference-free: every path that replies or writes for an addressed kind took the address-equality edge; replies carry self.address; every path that writes for an unaddressed kind is restricted to the receiving states; the bus loop offers the message to signs in order and returns the first reply unchanged.",
+         TB + "Non-interference over interleavings follows from these per-step facts (at most one sign satisfies the address atom; unaddressed kinds only touch receiving signs).", "DESIGN.md 4 C14"),
  "C19": ("proof", "A1 table extraction + constant evaluation + cross-table relation",
          "to_bytes / dimensions / from_bytes are extracted as tables with rustc-evaluated constants; their mutual consistency, the height/width/bits-per-column relations inside each block, the virtual sign's derivation evaluated on each block, and from_bytes' length/acceptance conditions are checked for all 11 types and all paths.",
          TB, "DESIGN.md 4 C19"),
